@@ -38,7 +38,7 @@ PROPS["C07"] = dict(
     rule=("rapid-generated case = reference-encoded well-formed stream (+ optionally 1..12 builder operations applied to the decoded database). "
           "Non-trivial = stream with >=2 lists or >=2 entries or an EXTERNAL_MANAGEMENT list or an empty list; distinct by SHA-256 of (stream, ops)."),
     assumptions=["ref/esl reference codec", "builder operations only use types the decoder handles (other types belong to C09)"],
-    quick=dict(checks=15000, shards=2, timeout=600),
+    quick=dict(checks=7500, shards=4, timeout=600),
     thorough=dict(checks=150000, shards=16, timeout=3000),
 )
 
@@ -55,7 +55,7 @@ PROPS["C08"] = dict(
           "counts as one evaluation. Non-trivial = input that differs from the well-formed stream and that the reference rejects; distinct by SHA-256 of the input."),
     assumptions=["ref/esl reference decoder"],
     exhaustive_note="every truncation point of each 'AllCuts' stream (class every_truncation_point)",
-    quick=dict(checks=12000, shards=2, timeout=600),
+    quick=dict(checks=8000, shards=4, timeout=600),
     thorough=dict(checks=120000, shards=16, timeout=3000),
     fuzz=[("FuzzC08", 90)],
 )
